@@ -27,4 +27,9 @@ def filterExprTrees : List Shape := sh1 unOps binOps ++ sh2 unOps binOps
 set_option maxRecDepth 100000 in
 theorem filterExpr_exact : (filterExprTrees.all fun s => devsExactExpr s.filterExpr) = true := by decide +kernel
 
+set_option maxRecDepth 100000 in
+theorem filterExpr_all :
+    (filterExprTrees.all fun s => roundTripsExpr false s.filterExpr && roundTripsExpr true s.filterExpr) = true := by
+  decide +kernel
+
 end OjgVerif.JPText
